@@ -161,6 +161,10 @@ def run(ctx):
     ctx.guarded(r, C05_.r3_piecewise)
     r = ctx.rule("R10f", "the f32 choice functions return the selected operand itself with Left / Right (bit for bit, the sign of a zero included)", 8)
     ctx.guarded(r, r_scalar_choices)
+    from .. import round8 as R8_
+
+    r = ctx.rule("R10n", "f32 min / max of an undecided pair is NaN when either operand is NaN", 2)
+    ctx.guarded(r, R8_.r_scalar_nan_both)
     # a decided `and` / `or` is replaced by one operand because the traced evaluator saw the other one's zero test come
     # out one way; every evaluator that later runs the parent or the child must apply the *same* zero test
     # (float ==: -0.0 is zero, NaN is not), or parent and child part ways exactly at such an operand
